@@ -265,7 +265,7 @@ def path_affine_env(canon, path, frame, upto=None):
     env = {}
     evs = path.events if upto is None else path.events[:upto]
     for e in evs:
-        if e.kind != 'stmt' or e.frame is not frame:
+        if e.kind != 'stmt' or not (e.frame is frame or (e.frame.func is frame.func and e.frame.depth == frame.depth == 0)):
             continue
         n = e.node
         if isinstance(n, ast.Assign) and len(n.targets) == 1 and isinstance(n.targets[0], ast.Name):
